@@ -3,6 +3,7 @@ package props
 import (
 	"bytes"
 	"encoding/hex"
+	"math"
 	"strings"
 	"testing"
 	"time"
@@ -47,7 +48,97 @@ func c05Gen(t *rapid.T, cx *h.Ctx) C05Case {
 		c.Respell.PlainMask = rapid.Uint32().Draw(t, "plainmask")
 	}
 	c.Trailing = rapid.SampledFrom(c05Trailing).Draw(t, "trailing")
+	if rapid.IntRange(0, 3).Draw(t, "closingzero") == 0 {
+		// closed sequences whose closing position equals the first numerically but not bit for bit (0 against -0)
+		c.G = closingSignedZero(c.G, rapid.SliceOfN(rapid.IntRange(0, 15), 1, 4).Draw(t, "closingzeroseeds"))
+	}
+	if rapid.IntRange(0, 7).Draw(t, "emptyrings") == 0 {
+		// EMPTY at the ring level: polygons that hold empty rings beside non-empty ones (shell or hole position)
+		c.G = insertEmptyRings(c.G, rapid.SliceOfN(rapid.IntRange(0, 15), 1, 4).Draw(t, "emptyringseeds"))
+	}
 	return c
+}
+
+// insertEmptyRings gives polygons that have rings one or two more, empty, at
+// positions taken from the seeds (seed%3 == 2: polygon left alone).
+func insertEmptyRings(g gm.G, seeds []int) gm.G {
+	k := 0
+	var rec func(n gm.G) gm.G
+	rec = func(n gm.G) gm.G {
+		if n.Zero {
+			return n
+		}
+		out := n
+		if n.T == gm.Polygon && len(n.Rings) > 0 {
+			sd := seeds[k%len(seeds)]
+			k++
+			if sd%3 != 2 {
+				rings := append([][]gm.F{}, n.Rings...)
+				for r := 0; r <= sd%3; r++ {
+					at := (sd/3 + r) % (len(rings) + 1)
+					rings = append(rings[:at], append([][]gm.F{{}}, rings[at:]...)...)
+				}
+				out.Rings = rings
+			}
+		}
+		if n.Mem != nil {
+			out.Mem = make([]gm.G, len(n.Mem))
+			for i, m := range n.Mem {
+				out.Mem[i] = rec(m)
+			}
+		}
+		return out
+	}
+	return rec(g)
+}
+
+// closingSignedZero rewrites sequences of two or more positions (seed odd:
+// left alone) so that the last position is a copy of the first except that one
+// ordinate is +0 in the one and -0 in the other.
+func closingSignedZero(g gm.G, seeds []int) gm.G {
+	k := 0
+	fix := func(fs []gm.F, d int) []gm.F {
+		sd := seeds[k%len(seeds)]
+		k++
+		n := len(fs) / d
+		if n < 2 || sd%2 == 1 {
+			return fs
+		}
+		out := append([]gm.F{}, fs...)
+		j := (sd / 2) % d
+		copy(out[(n-1)*d:], out[:d])
+		z, nz := gm.F(0), gm.F(math.Copysign(0, -1))
+		if (sd/8)%2 == 1 {
+			z, nz = nz, z
+		}
+		out[j], out[(n-1)*d+j] = z, nz
+		return out
+	}
+	var rec func(n gm.G) gm.G
+	rec = func(n gm.G) gm.G {
+		if n.Zero {
+			return n
+		}
+		d := gm.Dim(n.CT)
+		out := n
+		if n.T == gm.LineString && len(n.Co) > 0 {
+			out.Co = fix(n.Co, d)
+		}
+		if n.Rings != nil {
+			out.Rings = make([][]gm.F, len(n.Rings))
+			for i, r := range n.Rings {
+				out.Rings[i] = fix(r, d)
+			}
+		}
+		if n.Mem != nil {
+			out.Mem = make([]gm.G, len(n.Mem))
+			for i, m := range n.Mem {
+				out.Mem[i] = rec(m)
+			}
+		}
+		return out
+	}
+	return rec(g)
 }
 
 func c05HasDepthEmpty(g gm.G) bool {
@@ -99,7 +190,7 @@ func c05Check(c C05Case, cx *h.Ctx) *h.Failure {
 			backing[i] = '#'
 		}
 		copy(backing, prefix)
-		if app := g.AppendWKT(backing[:len(prefix):len(prefix)+spare]); string(app) != string(prefix)+text {
+		if app := g.AppendWKT(backing[: len(prefix) : len(prefix)+spare]); string(app) != string(prefix)+text {
 			return h.Failf("wkt/append", "AppendWKT(%q with %d spare bytes) = %q, want prefix+AsText() = %q", prefix, spare, app, string(prefix)+text)
 		}
 		if string(backing[len(prefix)+spare:]) != "########" {
